@@ -136,14 +136,15 @@ func (s *Snap) coq() string {
 
 // Large cases (long byte strings are slow to parse on the Coq side) are sent to
 // the model only while this budget lasts; the oracle sees every case.
-var bigLeft = 1 << 30
+var bigLeft = map[string]int{}
+var bigAll = false
 
-func model(size int, term string) string {
-	if size > 1500 {
-		if bigLeft <= 0 {
+func model(op string, size int, term string) string {
+	if size > 1500 && !bigAll {
+		if bigLeft[op] <= 0 {
 			return ""
 		}
-		bigLeft--
+		bigLeft[op]--
 	}
 	return term
 }
@@ -261,19 +262,19 @@ func run(c *vh.Ctx, cs Case) {
 		r, err, pan := decode(b)
 		kind := "dec:" + cs.Origin
 		if pan {
-			c.Case(kind, cs.B, true, cs, model(len(b), vh.App("CDec", vh.Bytes(b), vh.Pan("(snapshot * N)"))))
+			c.Case(kind, cs.B, true, cs, model("dec", len(b), vh.App("CDec", vh.Bytes(b), vh.Pan("(snapshot * N)"))))
 			c.Fail("decoder-panic", "UnmarshalVersionedSnapshot panicked", cs)
 			return
 		}
 		if err != nil {
-			c.Case(kind, cs.B, validHeader(b), cs, model(len(b), vh.App("CDec", vh.Bytes(b), vh.Err("(snapshot * N)"))))
+			c.Case(kind, cs.B, validHeader(b), cs, model("dec", len(b), vh.App("CDec", vh.Bytes(b), vh.Err("(snapshot * N)"))))
 			if cs.Expect == "accept" {
 				c.Fail("valid-rejected", "an encoding produced by VersionedMarshal (full topology suffix or none) was rejected: "+err.Error(), cs)
 			}
 			return
 		}
 		got := fromGo(r.Snapshot)
-		c.Case(kind, cs.B, true, cs, model(len(b), vh.App("CDec", vh.Bytes(b),
+		c.Case(kind, cs.B, true, cs, model("dec", len(b), vh.App("CDec", vh.Bytes(b),
 			vh.Ok("("+got.coq()+", "+vh.NU(r.TopologicalOrder)+")"))))
 		switch cs.Expect {
 		case "reject-partial-topology":
@@ -284,10 +285,10 @@ func run(c *vh.Ctx, cs Case) {
 		checkAccepted(c, cs, b, got, r.TopologicalOrder)
 	case "enc":
 		out, pan := marshal(cs.S, cs.Topo)
-		c.Case("enc", keyOf(cs), !pan, cs, model(32*len(cs.S.Txs), vh.App("CEnc", cs.S.coq(), vh.NU(cs.Topo), resBytes(pan, out))))
+		c.Case("enc", keyOf(cs), !pan, cs, model("enc", 32*len(cs.S.Txs), vh.App("CEnc", cs.S.coq(), vh.NU(cs.Topo), resBytes(pan, out))))
 	case "pay":
 		out, pan := payloadBytes(cs.S)
-		c.Case("pay", keyOf(cs), !pan, cs, model(32*len(cs.S.Txs), vh.App("CPay", cs.S.coq(), resBytes(pan, out))))
+		c.Case("pay", keyOf(cs), !pan, cs, model("pay", 32*len(cs.S.Txs), vh.App("CPay", cs.S.coq(), resBytes(pan, out))))
 	case "hash":
 		h, pan := payloadHash(cs.S, cs.Topo)
 		var p []byte
@@ -305,7 +306,7 @@ func run(c *vh.Ctx, cs Case) {
 				c.Fail("hash-not-of-payload", "PayloadHash is not the hash of the payload encoding (encoding without signature and topology)", cs)
 			}
 		}
-		c.Case("hash", keyOf(cs), !pan, cs, model(32*len(cs.S.Txs), vh.App("CHash", cs.S.coq(), resBytes(pan, p))))
+		c.Case("hash", keyOf(cs), !pan, cs, model("hash", 32*len(cs.S.Txs), vh.App("CHash", cs.S.coq(), resBytes(pan, p))))
 	case "roundtrip":
 		// a well-formed snapshot encodes, and both forms decode to it (transactions sorted)
 		want := cs.S.clone()
@@ -674,6 +675,7 @@ func main() {
 		"(or accepted), or the encoder did not panic; distinct by exact bytes / snapshot fields."
 	if c.Replay != "" {
 		var cs Case
+		bigAll = true
 		c.ReplayCase(&cs)
 		run(c, cs)
 		c.Finish()
@@ -681,7 +683,8 @@ func main() {
 	}
 	g := &gen{c: c}
 	r := c.Rng
-	bigLeft = c.Scale(8, 300)
+	bigLeft["enc"], bigLeft["dec"] = c.Scale(1, 60), c.Scale(2, 120)
+	bigLeft["pay"], bigLeft["hash"] = c.Scale(0, 30), c.Scale(0, 30)
 
 	// ---- corpus ----------------------------------------------------------------------
 	sig := hex.EncodeToString(bytes.Repeat([]byte{0xab}, 64))
